@@ -7,8 +7,7 @@ FLAGS = ["F0", "F1"]
 VALS = ["V0", "V1"]
 T = "\x00"          # placeholder of the per-line token, filled in by render()
 
-LIT_CHARS = ["a", "b", " ", "!", "&", "//", "#", "$", "x y", "!$omp", "& !", ";", "(", ",", "a", "b", "!", "&", "//",
-             "\\", "\\n"]      # the last two: a backslash inside a literal (known finding backslash-in-literal)
+LIT_CHARS = ["a", "b", " ", "!", "&", "//", "#", "$", "x y", "!$omp", "& !", ";", "(", ","]
 
 
 def gen_lit(rng, allow_token=True):
@@ -22,6 +21,8 @@ def gen_lit(rng, allow_token=True):
             body += q + q                      # doubled quote
         elif r < 0.25:
             body += other                      # the other quote is plain text
+        elif r < 0.262:
+            body += rng.choice(["\\", "\\n"])   # a backslash inside a literal (known finding backslash-in-literal)
         else:
             body += rng.choice(LIT_CHARS)
     return q, body
@@ -124,6 +125,16 @@ def gen_stmt(rng):
     return lines
 
 
+def dir_tail(rng):
+    """Optional C comment at the end of a directive line (closed on the line)."""
+    r = rng.random()
+    if r < 0.75:
+        return ""
+    if r < 0.9:
+        return rng.choice([" /* F0 */", " /* a * b / c */", "  /**/", " /* don't */ "])
+    return rng.choice([" // note", " // a /* b", " //"])
+
+
 def gen_cond(rng):
     r = rng.random()
     if r < 0.3:
@@ -175,15 +186,15 @@ def gen_block(rng, depth, budget, col1=False):
         elif r < 0.82:
             out.append("#undef " + rng.choice(FLAGS + VALS))
         elif depth < 3:
-            out.append(gen_cond(rng))
+            out.append(gen_cond(rng) + dir_tail(rng))
             out += gen_block(rng, depth + 1, budget // 2, col1)
             for _ in range(rng.choice([0, 0, 0, 1, 2])):
                 out.append(gen_elif(rng))
                 out += gen_block(rng, depth + 1, budget // 3, col1)
             if rng.random() < 0.6:
-                out.append("#else")
+                out.append("#else" + dir_tail(rng))
                 out += gen_block(rng, depth + 1, budget // 3, col1)
-            out.append(rng.choice(["#endif", "#endif", "# endif"] if col1 else ["#endif", "#endif", "  #endif", "# endif"]))
+            out.append(rng.choice(["#endif", "#endif", "# endif"] if col1 else ["#endif", "#endif", "  #endif", "# endif"]) + dir_tail(rng))
         else:
             out += gen_stmt(rng)
     return out
@@ -257,6 +268,8 @@ def features(text):
         f.add("literal_special")
     if "#if" in text:
         f.add("conditional")
+    if re.search(r"^[ \t]*#.*/[*/]", text, re.M):
+        f.add("directive_comment")
     if "''" in text or '""' in text:
         f.add("doubled_quote")
     if re.search(r"^[ \t]*&", text, re.M):
